@@ -34,6 +34,9 @@ def run(ctx):
     rep.rule("C16.R2", "rejection asserts dominate the normal return", 8)
     rep.rule("C16.R3", "evaluation point (t0, q0, u0)", 15)
     rep.rule("C16.R4", "acceleration-level prox template", 3)
+    rep.rule("C16.R6", "local normal/friction connectivity of the contacts active at t0 (index typing in compute_I_F, shared with C18.R5)", 4)
+    from .c18 import nf_link
+    nf_link(ctx, "C16.R6")
     rep.rule("C16.R5", "one scalar prox parameter per vector-valued friction law (Coulomb direction at acceleration level)", 2)
     fn = ctx.repo.get(SB, "consistent_initial_conditions")
     C = f"{SB}:consistent_initial_conditions"
